@@ -11,7 +11,7 @@ import ast
 
 from .lincomb import LinComb
 from .matalg import Alg
-from .model import ClassInfo, FuncInfo, Program, call_name, is_self_attr, norm
+from .model import ClassInfo, FuncInfo, Program, call_name, is_self_attr, norm, strip_copy
 from .poly import Rat
 from .report import AnalysisError
 
@@ -180,6 +180,7 @@ class BlockEval:
         return [A.atom(f"O^{i+1}") for i in range(self.n)]
 
     def ev(self, f, e, env):
+        e = strip_copy(e)
         A = self.alg
         if isinstance(e, ast.Name) and e.id == "self":
             return Obj(self.k.name, list(self.comps))
